@@ -200,6 +200,21 @@ pub fn run_stream(args: &Args) -> (u64, u64) {
         stream_dir(&mut c, &mut rng, &mut cl, &mut sv, *total, true);
         stream_dir(&mut c, &mut rng, &mut sv, &mut cl, *total / 2, true);
     }
+    // single calls larger than 65 536 bytes on each of the four halves (length counters must not be narrower than usize)
+    {
+        c.reset("stream-hugecall");
+        let key = rnd40(&mut rng);
+        if let Some((mut cl, mut sv)) = pair(&mut c, exp, "HUGE", key, None, rng.gen()) {
+            let n = if thorough { 140_000 } else { 70_000 };
+            let mut data = vec![0u8; n];
+            rng.fill_bytes(&mut data);
+            if let Some(o) = c.call(&mut cl, "enc", &data, "combined") { c.call(&mut sv, "dec", &o, "half"); }
+            if let Some(o) = c.call(&mut sv, "enc", &data, "half") { c.call(&mut cl, "dec", &o, "combined"); }
+            // and the stream goes on afterwards
+            stream_dir(&mut c, &mut rng, &mut cl, &mut sv, 100, false);
+            stream_dir(&mut c, &mut rng, &mut sv, &mut cl, 100, false);
+        }
+    }
     // many keys, short traffic: key derivation of both halves on both sides
     let nkeys = args.n.unwrap_or(if thorough { 3000 } else { 150 });
     let mut base = rnd40(&mut rng);
@@ -856,6 +871,81 @@ pub fn run_halves(args: &Args) -> (u64, u64) {
             // the halves share no state, so any merge of the two logs is a behaviour of the spec; log A then B
             for mut ev in t1.join().unwrap_or_default() { let mut r0 = jbytes(&ev["data"]); re.encrypt(&mut r0); ev["ref"] = b(&r0); c.tr.ev(ev); }
             for mut ev in t2.join().unwrap_or_default() { let mut r0 = jbytes(&ev["data"]); rd.decrypt(&mut r0); ev["ref"] = b(&r0); c.tr.ev(ev); }
+        }
+    }
+    c.tr.finish()
+}
+
+/// C14 (header side): decrypters fed arbitrary bytes, in any amount and ORDER, through every entry point;
+/// in particular the Wrath client's second-step call without a preceding attempt.
+pub fn run_hdradv(args: &Args) -> (u64, u64) {
+    let mut c = C::new(Tr::create(&args.out));
+    let mut rng = StdRng::seed_from_u64(args.seed);
+    let rounds = if args.tier == "thorough" { 200 } else { 12 };
+    for round in 0..rounds {
+        for exp in EXPS {
+            c.reset("hdradv");
+            let Some((mut cl, mut sv)) = pair(&mut c, exp, "HOSTILE", key_class(&mut rng, round), None, rng.gen()) else { continue };
+            if round % 2 == 1 {
+                c.split(&mut cl);
+                c.split(&mut sv);
+            }
+            let via = if round % 3 == 0 { "combined" } else { "half" };
+            let mut g4 = [0u8; 4];
+            let mut g6 = [0u8; 6];
+            if exp == "wrath" {
+                // second-step call on a fresh decrypter, repeatedly, before any attempt
+                c.wrath_complete(&mut cl, rng.gen(), via);
+                c.wrath_complete(&mut cl, 0xFF, via);
+                for k in 0..10 {
+                    rng.fill_bytes(&mut g4);
+                    if k % 4 == 0 { g4 = [0xff; 4]; }
+                    if k % 4 == 1 { g4 = [0; 4]; }
+                    let r = c.wrath_attempt(&mut cl, g4, via);
+                    // out of protocol order: complete after a short header, or skip the completion after a long one
+                    if k % 2 == 0 || matches!(r, Some(Some(_))) {
+                        c.wrath_complete(&mut cl, rng.gen(), via);
+                    }
+                }
+                // legitimate long header, then extra completions with stale state
+                if let Some(h) = c.enc_server_hdr(&mut sv, 0x7FFFFF, 0xFFFF, via) {
+                    let mut a4 = [0u8; 4];
+                    a4.copy_from_slice(&h[..4]);
+                    c.wrath_attempt(&mut cl, a4, via);
+                    c.wrath_complete(&mut cl, h[4], via);
+                    c.wrath_complete(&mut cl, 0, via);
+                }
+                let mut junk = vec![0u8; rng.gen_range(0..9)];
+                rng.fill_bytes(&mut junk);
+                c.read_hdr(&mut cl, "server", &[Step::Data(junk)], via);
+            } else {
+                for _ in 0..6 {
+                    rng.fill_bytes(&mut g4);
+                    c.dec_server_hdr(&mut cl, g4, via);
+                    let mut junk = vec![0u8; rng.gen_range(0..7)];
+                    rng.fill_bytes(&mut junk);
+                    c.read_hdr(&mut cl, "server", &[Step::Data(junk)], via);
+                }
+            }
+            for k in 0..6 {
+                rng.fill_bytes(&mut g6);
+                if k == 0 { g6 = [0xff; 6]; }
+                c.dec_client_hdr(&mut sv, g6, via);
+                let mut junk = vec![0u8; rng.gen_range(0..9)];
+                rng.fill_bytes(&mut junk);
+                c.read_hdr(&mut sv, "client", &[Step::Data(junk)], via);
+            }
+            let mut big = vec![0u8; rng.gen_range(0..600)];
+            rng.fill_bytes(&mut big);
+            c.call(&mut cl, "dec", &big, via);
+            c.call(&mut sv, "dec", &big, via);
+            // hostile world-login values: proofs, seeds
+            let mut pr = [0u8; 20];
+            rng.fill_bytes(&mut pr);
+            c.world_server(exp, "HOSTILE", rnd40(&mut rng), pr, rng.gen(), true, None);
+            c.world_server(exp, "HOSTILE", [0u8; 40], [0u8; 20], 0, true, Some(0));
+            c.world_server(exp, "HOSTILE", [0xff; 40], [0xff; 20], u32::MAX, true, Some(u32::MAX));
+            c.world_client(exp, "HOSTILE", [0u8; 40], u32::MAX, true, Some(0));
         }
     }
     c.tr.finish()
